@@ -2,18 +2,18 @@
 # run_seeds.sh [seed-name ...]   — apply each seeded change to /repo, run the quick check of the
 # property it targets (and any extra checks given in $EXTRA, space separated), undo the change.
 # Writes /verif/seeded/<name>/result.json.  /repo must be clean.
-cd /verif || exit 2
-if [ -n "$(git -C /repo status --porcelain)" ]; then echo "/repo is not clean"; exit 2; fi
+V=$(cd "$(dirname "$0")/.." && pwd); REPO=${REPO:-/repo}; cd "$V" || exit 2
+if [ -n "$(git -C $REPO status --porcelain)" ]; then echo "$REPO is not clean"; exit 2; fi
 names="$@"; [ -z "$names" ] && names=$(ls seeded)
 for n in $names; do
   d=seeded/$n; [ -f $d/patch.diff ] || continue
   prop=$(python3 -c "import json;print(json.load(open('$d/meta.json'))['property'])" 2>/dev/null)
-  pf=/verif/$d/patch.diff; [ -f /verif/$d/patch-rebased.diff ] && pf=/verif/$d/patch-rebased.diff
-  if ! git -C /repo apply --3way $pf >/dev/null 2>&1; then
-     git -C /repo reset -q --hard HEAD
+  pf=$V/$d/patch.diff; [ -f $V/$d/patch-rebased.diff ] && pf=$V/$d/patch-rebased.diff
+  if ! git -C $REPO apply --3way $pf >/dev/null 2>&1; then
+     git -C $REPO reset -q --hard HEAD
      echo "$n: patch does not apply to the current /repo"; echo '{"applies": false}' > $d/result.json; continue
   fi
-  git -C /repo reset -q   # --3way stages; keep it as a working-tree change only
+  git -C $REPO reset -q   # --3way stages; keep it as a working-tree change only
   res="{\"applies\": true"
   for p in $prop $EXTRA; do
     out=$(./check $p --tier ${TIER:-quick} 2>&1); code=$?
@@ -23,6 +23,6 @@ for n in $names; do
     if [ $code = 1 ]; then f=$(echo "$out" | grep "^VIOLATION" | head -1 | sed 's/.*replay=//'); [ -f "$f" ] && cp "$f" $d/example-replay-$p.json; fi
   done
   echo "$res}" > $d/result.json
-  git -C /repo checkout -- .
+  git -C $REPO checkout -- .
 done
 ./check C01 --tier quick >/dev/null 2>&1   # rebuild against the restored tree
